@@ -83,6 +83,7 @@ def run(ctx):
             for strict in (True, False):
                 cases.append((t, strict))
         reqs, metas = [], []
+        ereqs, e2e = [], []
         for t, strict in cases:
             tok = tokens(t, strict)
             tok_u = tokens(universal(t), strict)
@@ -93,6 +94,12 @@ def run(ctx):
             base_u = {"params": tok_u["params"]}
             if tok_u.get("tokerr"): base_u["tokerr"] = True
             k = len(reqs)
+            # end-to-end model (modelled msdparser + entry-point plumbing + loading rules), no Python tokenizer involved
+            e2e.append((t, strict, len(ereqs)))
+            ereqs.append({"op": "entry.load", "kind": "stringIO", "content": t, "strict": strict})
+            ereqs.append({"op": "entry.load", "kind": "lines", "content": "", "lines": t.splitlines(keepends=True), "strict": strict})
+            for n in FILE_NAMES[:5]:
+                ereqs.append({"op": "entry.load", "kind": "wrapper", "name": n, "content": universal(t), "strict": strict})
             reqs.append(dict(base, op="load.any", name=None))                      # content rule
             reqs.append(dict(base, op="load.any", force="sm"))
             reqs.append(dict(base, op="load.any", force="ssc"))
@@ -100,6 +107,11 @@ def run(ctx):
                 reqs.append(dict(base_u, op="load.any", name=n))
             metas.append((t, strict, tok, k))
         resp = ctx.lean.eval_sharded(reqs)
+        eresp = ctx.lean.eval_sharded(ereqs)
+        e2e_expected = {}
+        for t, strict, i in e2e:
+            e2e_expected[(t, strict)] = {"loads": eresp[i], "load(iter(lines))": eresp[i + 1],
+                                         **{"load(open(%s))" % n: eresp[i + 2 + j] for j, n in enumerate(FILE_NAMES[:5])}}
         creqs, cmetas = [], []
         for t, strict, tok, k in metas:
             exp_content, exp_sm, exp_ssc = resp[k], resp[k + 1], resp[k + 2]
@@ -139,6 +151,12 @@ def run(ctx):
             for n in names:
                 if str(obs["load(open(%s))" % n][0]) != str(obs["open(%s)" % n][0]):
                     res.violation(case, "open file object and filename give different simfiles", name=n); break
+            # the end-to-end Lean model (own tokenizer model) against the implementation
+            for n, m in e2e_expected.get((t, strict), {}).items():
+                if n in obs and obs[n][0] != m:
+                    res.tie_break("entry.load (end-to-end model: modelled msdparser + plumbing + rules)", dict(case, entry_point=n), str(obs[n][0])[:300], str(m)[:300])
+                    break
+            res.count("e2e_compared", len(e2e_expected.get((t, strict), {})))
             wrong = [(n, o) for n, o in obs.items() if o[0] != o[1]]
             if wrong:
                 n, o = wrong[0]
